@@ -45,9 +45,9 @@ def main():
     try:
         rc, o = sh(["git", "-C", "/repo", "worktree", "add", "--detach", "-q", wt, "HEAD"]); assert rc == 0, o
         rc, o = sh(["git", "apply", patch], cwd=wt); assert rc == 0, "patch does not apply: " + o
-        rc, o = sh("go build ./... && go test -vet=off -count=1 ./...", cwd=wt)
+        rc, o = sh("go build ./... && flock /tmp/kernel-suite.lock go test -vet=off -count=1 ./...", cwd=wt)
         if rc != 0:  # kernel-facing tests are occasionally disturbed by other runs
-            rc, o = sh("go test -vet=off -count=1 ./...", cwd=wt)
+            rc, o = sh("flock /tmp/kernel-suite.lock go test -vet=off -count=1 ./...", cwd=wt)
         rec["suite_with_patch"] = "pass" if rc == 0 else "FAIL"
         rec["ran"].append("git apply patch.diff && go build ./... && go test -vet=off -count=1 ./...  -> " + rec["suite_with_patch"])
         if rc != 0: print(o[-3000:])
